@@ -38,6 +38,9 @@ def model(name):
     return deco
 
 
+NOT_STRUCTURING_SIGS = ("fallback-", "second-convert", "convert-raised", "runaway", "marker-")
+
+
 def classify(pid, v):
     """Returns '<id> <mechanism>' of the open finding that explains violation record v, else None."""
     for e in load():
@@ -48,6 +51,10 @@ def classify(pid, v):
             continue
         fn = MODELS.get(e.get("model"))
         if fn is None:
+            continue
+        # the structuring defects (K02-K09) explain a wrong *structured* answer; what the decompiler does when it gives up
+        # (the marked SsbScript fallback, a second convert(), an exception, the step bound) is not explained by any of them
+        if str(v.get("sig", "")).startswith(NOT_STRUCTURING_SIGS) and e.get("model") != "string-escape-rules":
             continue
         try:
             if fn(v):
